@@ -244,9 +244,12 @@ def apply_perturb(ws, pkg, kind, path, what):
     if what == "wrong_kind":
         rm()
         if kind == "file":
+            # a directory (holding a file and a sub-directory) where the file output belongs
             if "/" in path:
                 os.makedirs(os.path.dirname(p), exist_ok=True)
-            os.makedirs(p)
+            os.makedirs(os.path.join(p, "sub"))
+            open(os.path.join(p, "sub", "stale"), "w").write("stale\n")
+            open(os.path.join(p, "stale"), "w").write("stale\n")
         else:
             open(p, "w").write("not a dir")
         return ["W"]
